@@ -2,6 +2,10 @@
 from translators import tr_c10
 
 PID = "C10"
+CLAIM = True
+MANIFEST_TEXT = "Lean 4 theorems (all widths n>=1, all well-formed digit lists) that the digit-loop model of bigunsignedint computes arithmetic modulo 2^(16n); the model's masks/width formula are regenerated from bigunsignedint.hh each run, and the model is run against the real class on >=20k boundary-biased cases per run with a GMP oracle deciding the property itself."
+MANIFEST_NOTE = "Trusted: Lean kernel (+propext/Classical.choice/Quot.sound), tr_c10.py, the hand-written model's fidelity (checked by differential execution only), GMP, g++/ASan/UBSan. todouble's final IEEE step and O(quotient) division with large quotients are outside the run."
+TECHNIQUE = 'Lean 4 proof over digit-list model + translator for constants + differential correspondence with GMP oracle'
 TRANSLATORS = [tr_c10.translate]
 HARNESS = dict(
     sources=["cxx_c10.cc"],
